@@ -72,8 +72,8 @@ func Harness_K4_Flags() {
 // UseStateForUnknown is the default for computed attributes without explicit plan modifiers.
 func Harness_K4_Lists() {
 	va, pm := vrtListMap(2), vrtListMap(2)
-	co := vrtFlagMap(2)
-	cfg := &Config{Validators: va, PlanModifiers: pm, ComputedFields: co, UseStateForUnknownByDefault: vrtBool()}
+	co, re := vrtFlagMap(2), vrtFlagMap(2)
+	cfg := &Config{Validators: va, PlanModifiers: pm, ComputedFields: co, RequiredFields: re, UseStateForUnknownByDefault: vrtBool()}
 	c := &FieldBuildContext{typeName: vrtString(), path: vrtString()}
 	c.config = cfg
 	gotV := c.GetValidators()
